@@ -60,7 +60,7 @@ CHECKS["C03"] = {
     "pkg": "./props/c03",
     "level": "exploration",
     "technique": "property-based testing (rapid): sign generated artefacts, compare payload items before/after with independent readers",
-    "level_text": "For PE, MSI/CFB, JAR (plain and hostile layouts: prefix bytes, gaps, zero-length members, long names), PowerShell scripts, XAP, VSIX, APPX (generated assets around the block size), APK, Mach-O (generated images with 0-1024 bytes of header padding; refusal accepted below 16), DEB, cabinets (generated header reserves), application manifests and RPM an input is generated (or a fixture drawn), in one case of three pre-signed by relic, signed through the library pipeline to the same or a new path, and the outcome must be either (error, input byte-identical, nothing left behind) or (success; output accepted by an independent reader - Go archive/zip, debug/macho, a strict ar walker plus ar(1), harness PE parser, harness CFB validator, harness cabinet reader that follows every offset and checksum, encoding/xml token comparison, RPM lead/header framing; every payload item that is not signature metadata identical in bytes, metadata and order; relic's verifier accepts it).",
+    "level_text": "For PE, MSI/CFB, JAR (plain and hostile layouts: prefix bytes, gaps, zero-length members, long names), PowerShell scripts, XAP, VSIX, APPX (generated assets around the block size), APK, Mach-O (generated images with 0-1024 bytes of header padding; refusal accepted below 16), DEB, cabinets (generated header reserves), application manifests and RPM an input is generated (or a fixture drawn), in one case of three pre-signed by relic, signed through the library pipeline to the same or a new path, and the outcome must be either (error, input byte-identical, nothing left behind) or (success; output accepted by an independent reader - Go archive/zip, debug/macho, a strict ar walker plus ar(1), harness PE parser, harness CFB validator, harness cabinet reader that follows every offset and checksum, encoding/xml token comparison, RPM lead/header framing; every payload item that is not signature metadata identical in bytes, metadata and order; relic's verifier accepts it). PGP clear-signed and inline messages over generated text and binary documents (lines of 4094-19000 bytes and around 64 KiB) are read back by an independent OpenPGP reader: the recovered document equals the input (clear-signed: up to line-ending style and trailing blanks), the signature is good over it, a line beyond 64 KiB may be refused cleanly, and the signer comes back (blocked-process watchdog).",
     "level_note": "Signature metadata per format is listed in harness/arts (e.g. META-INF/*.SF|RSA|EC|MANIFEST.MF for JAR; AppxManifest.xml for APPX because relic rewrites its Publisher by design). CAB, CAT, DMG, XAR and RPM have no independent payload reader here and are not covered by this check.",
     "quick": {"checks": 300, "timeout": 1200},
     "thorough": {"checks": 2500, "timeout": 3400, "shards": 8},
@@ -78,7 +78,7 @@ CHECKS["C18"] = {
     "pkg": "./props/c18",
     "level": "exploration",
     "technique": "stateful property-based testing (rapid) with a harness CFB generator, an MS-CFB validator as oracle, a stream-set model and a reference MSI digest",
-    "level_text": "Generated compound files (512/4096-byte sectors, with/without mini stream, streams around the 4096 cutoff, nested storages, free-sector patterns, fragmented chains, directory padding and holes, DIFAT sectors) are edited through relic's comdoc writer with drawn histories of AddFile (signature stream names and other names incl. case variants; sizes on both sides of the cutoff), replace, DeleteFile and Close+reopen. After every close a validator written from MS-CFB must find no violation (header counts, FAT/DIFAT/miniFAT chains in bounds, acyclic and disjoint, no leaked sectors, directory red-black tree correctly ordered and coloured) and every stream and storage must equal the model in name, metadata and bytes. Separately the MSI digest from the tar stream (drawn read sizes) must equal the digest from the container and a harness reference computation (with and without the extended pre-hash).",
+    "level_text": "Generated compound files (512/4096-byte sectors, with/without mini stream, streams around the 4096 cutoff, nested storages, free-sector patterns, fragmented chains, directory padding and holes, DIFAT sectors; one file in 40 has its FAT full, with 0-7 sectors of slack, at exactly 109 FAT sectors - thorough also 109+127 - so that the next allocation needs a new DIFAT sector) are edited through relic's comdoc writer with drawn histories of AddFile (signature stream names and other names incl. case variants; sizes on both sides of the cutoff), replace, DeleteFile and Close+reopen. After every close a validator written from MS-CFB must find no violation (header counts, FAT/DIFAT/miniFAT chains in bounds, acyclic and disjoint, no leaked sectors, directory red-black tree correctly ordered and coloured) and every stream and storage must equal the model in name, metadata and bytes. Separately the MSI digest from the tar stream (drawn read sizes) must equal the digest from the container and a harness reference computation (with and without the extended pre-hash).",
     "level_note": "Trusts the harness validator and generator (cross-checked against each other and against the repository's dummy.msi). The reference MSI digest follows the osslsigncode algorithm; the extended pre-hash reference is of medium confidence (same field selection as relic).",
     "quick": {"checks": 3500, "timeout": 900, "env": {"VERIF_C18_OPS": 8}},
     "thorough": {"checks": 30000, "timeout": 3400, "shards": 8, "env": {"VERIF_C18_OPS": 30}},
@@ -87,7 +87,7 @@ CHECKS["C16"] = {
     "pkg": "./props/c16",
     "level": "exploration",
     "technique": "property-based round-trip testing (rapid) with an independent DER walker/verifier as oracle, OpenSSL cross-check on a sample",
-    "level_text": "Harness-built third-party-style SignedData (unsorted signed attributes, extra attributes incl. unknown OIDs, several certificates and CRLs in any order, 1-3 SignerInfos, RSA PKCS#1 / RSA-PSS / ECDSA, NULL vs absent digest parameters, nested countersignatures and RFC 3161 tokens, attached/detached/non-data content) and harness-TSA tokens in many option combinations go through relic's Unmarshal -> Marshal, Detach and timestamp embedding; every signed region located by an independent DER walker must still be present byte-identically and every signature, countersignature and token must still verify with Go crypto (openssl cms -verify on a sample). The PKCS#7 inside relic's own PE, MSI, PowerShell, JAR and catalog outputs (drawn key, digest, options) must carry content-type and message-digest exactly once and consistent with the content, verify over exactly the emitted SET OF bytes under the configured leaf, keep a re-signed catalog's content byte-identical, and survive relic's own round trip byte-identically; CRLs (Go-made and hand-encoded) travel in the generated values; a re-sign over a parsed ContentInfo must carry it byte for byte; a key whose certificate comes from a CA with UTF8String/T61String name values must yield a SignerInfo issuer equal to the certificate's issuer bytes; a token with a two-valued message-digest attribute is refused or emitted single-valued.",
+    "level_text": "Harness-built third-party-style SignedData (unsorted signed attributes, extra attributes incl. unknown OIDs, several certificates and CRLs in any order, 1-3 SignerInfos, RSA PKCS#1 / RSA-PSS / ECDSA, NULL vs absent digest parameters, nested countersignatures and RFC 3161 tokens, attached/detached/non-data content) and harness-TSA tokens in many option combinations go through relic's Unmarshal -> Marshal, Detach and timestamp embedding; every signed region located by an independent DER walker must still be present byte-identically and every signature, countersignature and token must still verify with Go crypto (openssl cms -verify on a sample). The PKCS#7 inside relic's own PE, MSI, PowerShell, JAR and catalog outputs (drawn key, digest, options) must carry content-type and message-digest exactly once and consistent with the content, verify over exactly the emitted SET OF bytes under the configured leaf, keep a re-signed catalog's content byte-identical, and survive relic's own round trip byte-identically; CRLs (Go-made and hand-encoded) travel in the generated values; a re-sign over a parsed ContentInfo must carry it byte for byte; a key whose certificate comes from a CA with UTF8String/T61String name values must yield a SignerInfo issuer equal to the certificate's issuer bytes; a token with a two-valued message-digest attribute is refused or emitted single-valued; tokens handed to TimestampAndMarshal by a scripted Timestamper (valid, attributes signed in another order than emitted, content swapped after signing, bad signature, wrong imprint, duplicate digest) are refused or the emitted token passes the independent token verifier.",
     "level_note": "Trusts the harness DER walker/verifier (cross-checked against openssl cms/ts and the Microsoft-signed fixture catalog). BER framing and subjectKeyIdentifier signer ids are excluded because relic's parser refuses them explicitly (no re-encoding happens).",
     "quick": {"checks": 2000, "timeout": 900},
     "thorough": {"checks": 15000, "timeout": 3400, "shards": 8},
@@ -105,7 +105,7 @@ CHECKS["C07"] = {
     "pkg": "./props/c07",
     "level": "exploration",
     "technique": "property-based testing (rapid) over generated key/certificate configurations with an independent extraction of the embedded leaf and signature check",
-    "level_text": "Configurations are generated per case: private key from a pool of 7 (two RSA-2048, RSA-3072, two P-256, P-384, P-521) x certificate made for the same key, another key of the same kind, another kind, or the same curve with another point x chain order (leaf first/last/middle, with/without intermediate and root; self-signed leaf alone, followed by unrelated certificates, or not first) x container (PEM, concatenated DER, certs-only PKCS#7 PEM/DER, PKCS#12 bundle, token-stored certificate, token that hands out another key than the certificate's) x PGP certificate of the same/another key x 12 signature types. If the certificate relic treats as leaf does not belong to the signing key, signing must fail, leave the input untouched and emit nothing; if a signature is emitted, the first embedded certificate must be the signing key's and the signature must verify under it (PKCS#7 types: independent DER walker + Go crypto; others: relic's verifier with that certificate / PGP key as the only acceptable signer). A rotated key behind the key cache: a lookup pinned to a key identifier yields a signature that verifies under that version's certificate, whatever the cache holds.",
+    "level_text": "Configurations are generated per case: private key from a pool of 7 (two RSA-2048, RSA-3072, two P-256, P-384, P-521) x certificate made for the same key, another key of the same kind, another kind, or the same curve with another point x chain order (leaf first/last/middle, with/without intermediate and root; self-signed leaf alone, followed by unrelated certificates, or not first) x container (PEM, concatenated DER, certs-only PKCS#7 PEM/DER, PKCS#12 bundle, token-stored certificate, token that hands out another key than the certificate's) x PGP certificate of the same/another key x 12 signature types. If the certificate relic treats as leaf does not belong to the signing key, signing must fail, leave the input untouched and emit nothing; if a signature is emitted, the first embedded certificate must be the signing key's and the signature must verify under it (PKCS#7 types: independent DER walker + Go crypto; others: relic's verifier with that certificate / PGP key as the only acceptable signer). The two guards behind the loader are also called directly (PKCS#7 builder with data / detached / typed content and extra attributes; XML-DSig enveloped and enveloping with every option combination) with drawn certificate lists: they sign iff the first certificate belongs to the key, and then the output names that certificate and verifies under it. A rotated key behind the key cache: a lookup pinned to a key identifier yields a signature that verifies under that version's certificate, whatever the cache holds.",
     "level_note": "File token and a recording token registered through token.Openers; PKCS#11/cloud tokens not exercised. A matching configuration may be refused only for the documented manifest requirement (issuer certificate must be in the chain).",
     "quick": {"checks": 4000, "timeout": 900},
     "thorough": {"checks": 30000, "timeout": 3400, "shards": 8},
@@ -114,7 +114,7 @@ CHECKS["C02"] = {
     "pkg": "./props/c02",
     "level": "exploration",
     "technique": "metamorphic property-based testing (rapid): mutate protected regions (computed from the format specifications by independent readers) of signed artefacts; verifier must reject",
-    "level_text": "18 artefact kinds (PE, MSI, JAR, APK, VSIX, XAP, APPX, PowerShell, Mach-O, CAB, DMG, XAR, RPM, DEB, catalog, PGP detached/clearsign/inline) are signed with drawn key and digest; the harness computes protected byte ranges from the format specifications with independent readers (PE layout parser, CFB reader incl. mini-stream ranges, ZIP directory, Mach-O sections, CAB/DMG/XAR/RPM/ar headers, PGP v4 packet structure, DER walker for signed attributes, message digest, content octets, signature value and leaf certificate) and applies bit flips, overwrites, 2-8 byte scrambles and truncations there, plus semantic edits (replace/delete/add ZIP member, graft a signature onto other content, append data after or inside the signature container, add or change an MSI stream by rebuilding the container, add a JAR member that is also listed in a new manifest section, rewrite a JAR member with manifest and .SF recomputed while the block-embedded signature file stays, rebuild the APK v2 block with a foreign key that lists the original certificates, append script text after a PowerShell signature block, flip bytes of XAR heap files at any directory depth). A mutation that the independent reader shows to leave protected content unchanged is discarded and counted. relic's verifier (digests and chain on) must reject every remaining mutant.",
+    "level_text": "18 artefact kinds (PE, MSI, JAR, APK, VSIX, XAP, APPX, PowerShell, Mach-O, CAB, DMG, XAR, RPM, DEB, catalog, PGP detached/clearsign/inline) are signed with drawn key and digest; the harness computes protected byte ranges from the format specifications with independent readers (PE layout parser, CFB reader incl. mini-stream ranges, ZIP directory, Mach-O sections, CAB/DMG/XAR/RPM/ar headers, PGP v4 packet structure, DER walker for signed attributes, message digest, content octets, signature value and leaf certificate) and applies bit flips, overwrites, 2-8 byte scrambles and truncations there, plus semantic edits (replace/delete/add ZIP member, graft a signature onto other content, append data after or inside the signature container, add or change an MSI stream by rebuilding the container, add a JAR member that is also listed in a new manifest section, rewrite a JAR member with manifest and .SF recomputed while the block-embedded signature file stays, rebuild the APK v2 block with a foreign key that lists the original certificates, append script text after a PowerShell signature block, flip bytes of XAR heap files at any directory depth, insert an unsigned data.tar.* / control.tar.* member in front of the real one of a DEB, put the certificate table of another signed PE image next to the genuine entry). A mutation that the independent reader shows to leave protected content unchanged is discarded and counted. relic's verifier (digests and chain on) must reject every remaining mutant.",
     "level_note": "Protected sets follow the specifications, not relic (e.g. the outer ContentInfo framing, PGP unhashed subpackets, [Content_Types].xml of OPC packages and unlisted JAR members are not claimed protected). A verifier panic on a mutant is counted, not reported here (C11's subject).",
     "quick": {"checks": 60, "timeout": 1500, "env": {"VERIF_C02_MUTATIONS": 10}},
     "thorough": {"checks": 400, "timeout": 3400, "shards": 8, "env": {"VERIF_C02_MUTATIONS": 25}},
@@ -123,7 +123,7 @@ CHECKS["C05"] = {
     "pkg": "./props/c05",
     "level": "exploration",
     "technique": "differential property-based testing (rapid) against independent reference verifiers and specification-derived reference computations",
-    "level_text": "relic-signed artefacts (generated PE, MSI, JAR, APK with members around the 1 MiB chunk size, PGP payloads; fixtures for DEB and RPM; drawn key, digest and options) are handed to code that shares nothing with relic: jarsigner -verify -strict with the harness CA as trust anchor; openssl cms -verify of the JAR signature block over the .SF file (chain to the harness CA); gpgv for detached / clearsign / inline PGP signatures (recovered text compared), for DEB role members (plus md5sum/sha1sum/size of every listed member, dpkg-deb -I/-c) and for the RPM header-only and header+payload signatures cut out of the signature header by an independent parser; and reference computations written from the specifications, compared with the digest the independent DER walker extracts from relic's signature: Authenticode PE image hash, page-hash table, PE checksum, WIN_CERTIFICATE framing and alignment, APK Signature Scheme v2 chunked digest, MSI stream-order digest and MsiDigitalSignatureEx pre-hash, cabinet image hash (header fields + folders + data, generated reserves and set identifiers). VSIX package signatures (all keys and digests) and SHA-1 ClickOnce manifest signatures are validated by the JDK's javax.xml.crypto.dsig. Authenticode SignedData is verified with the DER walker + Go crypto.",
+    "level_text": "relic-signed artefacts (generated PE, MSI, JAR, APK with members around the 1 MiB chunk size, PGP payloads; fixtures for DEB and RPM; drawn key, digest and options) are handed to code that shares nothing with relic: jarsigner -verify -strict with the harness CA as trust anchor; openssl cms -verify of the JAR signature block over the .SF file (chain to the harness CA); gpgv for detached / clearsign / inline PGP signatures (recovered text compared), for DEB role members (plus md5sum/sha1sum/size of every listed member, dpkg-deb -I/-c) and for the RPM header-only and header+payload signatures cut out of the signature header by an independent parser; and reference computations written from the specifications, compared with the digest the independent DER walker extracts from relic's signature: Authenticode PE image hash, page-hash table, PE checksum, WIN_CERTIFICATE framing and alignment, APK Signature Scheme v2 chunked digest, MSI stream-order digest and MsiDigitalSignatureEx pre-hash, cabinet image hash (header fields + folders + data, generated reserves and set identifiers). VSIX package signatures (all keys and digests; generated packages with part names containing ', >, &, ;, % and non-ASCII characters) and SHA-1 ClickOnce manifest signatures are validated by the JDK's javax.xml.crypto.dsig. Authenticode SignedData is verified with the DER walker + Go crypto.",
     "level_note": "signtool, codesign, apksigner, msiexec and .NET are not available offline: platform acceptance is approximated by the reference computations. JDK policy treats SHA-1 JAR signatures as unsigned (counted, not judged); inputs the JDK's own ZIP reader refuses are counted, not judged. The CAB header digest, XAR/Mach-O CMS and VSIX (see C19) are not covered here.",
     "quick": {"checks": 90, "timeout": 1500},
     "thorough": {"checks": 600, "timeout": 3400, "shards": 8},
@@ -132,7 +132,7 @@ CHECKS["C09"] = {
     "pkg": "./props/c09",
     "level": "exploration",
     "technique": "property-based testing (rapid) with harness-owned read schedules and scripted front servers; differential on the embedded content digest",
-    "level_text": "(a) Every transform kind is read 2-4 times (optionally after a partially read, abandoned attempt, in a repetition test with an attempt that is never read, and for Mach-O with drawn auxiliary files) and all complete reads must be byte-identical; an abandoned gzip/snappy-compressed request followed by a retry over the same file must deliver the whole input (150 repetitions per encoding). (b) Signers are fed their upload stream under drawn read-size schedules on unsigned and relic-signed inputs, with PE page hashes drawn (1 byte, primes, straddling 4 KiB / 64 KiB / 1 MiB, short reads, data returned with EOF): signing must succeed like a whole read, the patched file must verify and the embedded content digest, extracted without relic (PE, MSI, PowerShell, JAR per-file digests, APK v2), must be identical. (c) The same input is signed standalone and through the real daemon behind 1-3 scripted front servers (503 before/after reading k bytes, connection reset, 406, pass) listed by a scripted directory that advertises identity / gzip / snappy / unknown encodings, with a drawn retry budget: any produced signature must verify and embed the standalone digest; scripts with only transient HTTP failures, a passing server and enough retries must succeed; a failure must leave the input untouched.",
+    "level_text": "(a) Every transform kind is read 2-4 times (optionally after a partially read, abandoned attempt, in a repetition test with an attempt that is never read, and for Mach-O with drawn auxiliary files) and all complete reads must be byte-identical; an abandoned gzip/snappy-compressed request followed by a retry over the same file must deliver the whole input (150 repetitions per encoding). (b) Signers are fed their upload stream under drawn read-size schedules on unsigned and relic-signed inputs, with the signer's boolean options drawn in both explicit states (1 byte, primes, straddling 4 KiB / 64 KiB / 1 MiB, short reads, data returned with EOF): signing must succeed like a whole read, the patched file must verify and the embedded content digest, extracted without relic (PE, MSI, PowerShell, JAR per-file digests, APK v2, Mach-O code directory hash and flags), must be identical. (c) The same input is signed standalone and through the real daemon behind 1-3 scripted front servers (503 before/after reading k bytes, connection reset, 406, pass) listed by a scripted directory that advertises identity / gzip / snappy / unknown encodings, with a drawn retry budget: any produced signature must verify and embed the standalone digest; scripts with only transient HTTP failures, a passing server and enough retries must succeed; a failure must leave the input untouched.",
     "level_note": "The Go scheduler is not owned by the harness: the abandoned-attempt race is attacked by repetition (60 per transform, thorough 2000). Connection resets may or may not be failed over (unspecified), only the result's integrity is judged there.",
     "quick": {"checks": 400, "timeout": 1500, "env": {"VERIF_C09_ABANDON_REPS": 60}},
     "thorough": {"checks": 4000, "timeout": 3400, "shards": 8, "env": {"VERIF_C09_ABANDON_REPS": 2000}},
@@ -150,7 +150,7 @@ CHECKS["C06"] = {
     "pkg": "./props/c06",
     "level": "exploration",
     "technique": "history-based property testing (rapid): concurrent request mixes against the real daemon under injected audit-sink faults; invariants over responses and the audit file",
-    "level_text": "Histories of 1-24 /sign requests (valid, via an alias, unknown key, key of a role the client lacks, unknown signature type, unknown digest, body the signer rejects) are issued by 1-16 concurrent TLS clients to the real daemon while the audit configuration is in one of: writable file, file in a missing directory, a directory in place of the file, /dev/full (ENOSPC), AMQP broker refusing connections, file plus refusing broker. Each request carries a unique file name. Invariants: every 2xx response has exactly one record, already present in the file when the response arrives, naming the resolved key, signature type, digest, certificate fingerprint, client name, client address and file name; failed requests leave no record; record count = 2xx count; every line is exactly one JSON object; with any sink failing no 2xx is returned. The relic binary is run with the same sink states: exit status 0 iff exactly one new, correct record.",
+    "level_text": "Histories of 1-24 /sign requests (valid, via an alias, unknown key, key of a role the client lacks, unknown signature type, unknown digest, body the signer rejects) are issued by 1-16 concurrent TLS clients to the real daemon while the audit configuration is in one of: writable file, file in a missing directory, a directory in place of the file, /dev/full (ENOSPC), AMQP broker refusing connections, file plus refusing broker. Each request carries a unique file name. Invariants: every 2xx response has exactly one record, already present in the file when the response arrives, naming the resolved key, signature type, digest, certificate fingerprint (the PGP fingerprint when a key with both kinds of certificate makes a PGP signature), client name, client address and file name; failed requests leave no record; record count = 2xx count; every line is exactly one JSON object; with any sink failing no 2xx is returned. The relic binary is run with the same sink states: exit status 0 iff exactly one new, correct record.",
     "level_note": "Successful AMQP delivery cannot be exercised offline. Runs as root, so permission-based faults are replaced by structural ones (directory in place of the file, /dev/full).",
     "quick": {"checks": 400, "timeout": 1200},
     "thorough": {"checks": 5000, "timeout": 3400, "shards": 8},
@@ -177,7 +177,7 @@ CHECKS["C14"] = {
     "pkg": "./props/c14", "race": True, "engine": "rapid+race-detector",
     "level": "exploration",
     "technique": "property-based testing (rapid) of generated concurrent request mixes against the real daemon built with the Go race detector; per-request isolated-verdict oracle",
-    "level_text": "Generated mixes of 4-64 requests (sign over 5 signature types x 7 keys incl. two behind a latency-injecting recording token x 3 digests x generated bodies; list-keys; key-info incl. forbidden and unknown keys; health) are issued by 2-32 concurrent clients over TLS to the real daemon (one child process of the same race-built binary per mix, living exactly as long as Serve, like the serve command) with GOMAXPROCS in {2,4,16}, token cache expiry 1 s and an optional token rate limit; one mix in six shuts the daemon down while a request is parked inside the token. Each response is compared with its isolated verdict (signature applied to that request's own body verifies under relic's verifier and names that request's key and digest; listings equal the configuration), audit records are counted, and the whole run is under the race detector.",
+    "level_text": "Generated mixes of 4-64 requests (sign over 6 signature types incl. APK x 12 keys incl. three behind a latency-injecting recording token and three configured with the default or a named time-stamp authority x 3 digests x generated bodies; list-keys; key-info incl. forbidden and unknown keys; health) are issued by 2-32 concurrent clients over TLS to the real daemon (one child process of the same race-built binary per mix, living exactly as long as Serve, like the serve command) with GOMAXPROCS in {2,4,16}, token cache expiry 1 s and an optional token rate limit (200/s, or 25/s with burst 1 so that requests queue); one mix in six shuts the daemon down while a request is parked inside the token. Each response is compared with its isolated verdict (signature applied to that request's own body verifies under relic's verifier and names that request's key and digest and is countersigned by exactly the authority configured for that key; listings equal the configuration), audit records are counted, 2-32 goroutines append records below and above 4 KiB to one audit file and every record must be there exactly once as one JSON line, and the whole run is under the race detector.",
     "level_note": "Interleavings are sampled by repetition, not enumerated; the race detector only sees accesses that happen. PKCS#11/cloud tokens and the worker subprocess path are not exercised here.",
     "quick": {"checks": 40, "timeout": 900, "vmem_kb": 0},
     "thorough": {"checks": 450, "timeout": 3400, "vmem_kb": 0, "shards": 6},
@@ -186,7 +186,7 @@ CHECKS["C11"] = {
     "pkg": "./props/c11", "engine": "rapid+isolation-child (+ native go fuzz in thorough)",
     "level": "exploration",
     "technique": "fuzzing: structure-aware generated corruption (rapid) of valid and signed artefacts and upload bodies at every parser entry point inside an isolation child, a replayed crasher corpus, and coverage-guided native go fuzzing in the thorough tier; resource oracle on allocation and CPU",
-    "level_text": "Inputs are 1-4 structure-aware corruptions (offset/length-looking fields set to boundary values, bit flips, truncation, duplication / deletion / zeroing / insertion of chunks, cross-format splices) of 60+ valid and relic-signed artefacts of all 19 signer modules (fixtures and signed siblings) or of the upload stream the client transform produces, presented to verify (integrity + chain), the is-signed probe, the client transform, server-side Sign, transform-then-Sign, type detection and the certificate loader, with the module detected or forced. Each case runs in an isolation child under a 2 GiB address-space cap: the child must stay alive (no panic in any goroutine, no runtime abort), report no recovered panic, allocate <= 96 MiB + 512 x input bytes in total and burn <= 15 s + 20 ms/KiB CPU, and not block. Saved crashers (testdata/crashers) are replayed first. The thorough tier adds a coverage-guided go fuzz campaign over (entry, module, bytes) seeded with all bases and crashers.",
+    "level_text": "Inputs are 1-4 structure-aware corruptions (offset/length-looking fields set to boundary values, bit flips, truncation, duplication / deletion / zeroing / insertion of chunks, cross-format splices; and, inside containers whose framing stays valid, the same on a ZIP member re-stored with a correct CRC or on the re-deflated xar table of contents, and tree mutations of XML documents: elements duplicated, dropped, moved, inserted from the signature vocabulary, nested 50-20000 deep) of 60+ valid and relic-signed artefacts of all 19 signer modules (fixtures and signed siblings) or of the upload stream the client transform produces, presented to verify (integrity + chain), the is-signed probe, the client transform, server-side Sign, transform-then-Sign, type detection and the certificate loader, with the module detected or forced. Each case runs in an isolation child under a 2 GiB address-space cap: the child must stay alive (no panic in any goroutine, no runtime abort), report no recovered panic, allocate <= 96 MiB + 512 x input bytes in total and burn <= 15 s + 20 ms/KiB CPU, and not block. Saved crashers (testdata/crashers) are replayed first. The thorough tier adds a coverage-guided go fuzz campaign over (entry, module, bytes) seeded with all bases and crashers.",
     "level_note": "Resource proportionality is judged against fixed generous multiples, not asymptotically. Wall-clock time is never a verdict. Failures inside the third-party RPM reader are listed findings keyed by site. The HTTP layer in front of Sign is exercised by C14/C04, not here. Native fuzzing cannot be seeded: its saved crasher is the reproducible unit.",
     "run": "^TestC11",
     "quick": {"checks": 25000, "timeout": 1500, "shards": 8},
